@@ -1,5 +1,6 @@
 import Mav.Proofs.GenLink
 import Mav.Proofs.GenValues
+import Mav.Proofs.GenVersion
 import Mav.Props.C03
 /-
   C18 — the generated code has the layout the MAVLink guide assigns to the XML definition: end-to-end theorem for messages.
@@ -68,5 +69,33 @@ example : AMsgOk heartbeatDef where
 theorem decimal_enum_value (k n : Nat) (hn : n < 2 ^ 64) :
     parseValue (String.ofList (List.replicate k '0' ++ EnumText.natToDec n)) = some n :=
   GenValues.decimal_value k n hn
+
+/-- **C18 (hexadecimal enum values).** `0x` followed by hexadecimal digits in either case: the number they denote in base sixteen
+    (`GenValues.valB 16`), below 2^64. -/
+theorem hex_enum_value (ds : List (Nat × Bool)) (hne : ds ≠ []) (h : ∀ d ∈ ds, d.1 < 16)
+    (hv : GenValues.valB 16 (ds.map (·.1)) 0 < 2 ^ 64) :
+    parseValue (String.ofList ('0' :: 'x' :: ds.map GenValues.hexChar)) = some (GenValues.valB 16 (ds.map (·.1)) 0) :=
+  GenValues.hex_value ds hne h hv
+
+/-- **C18 (binary enum values).** -/
+theorem binary_enum_value (ds : List Nat) (hne : ds ≠ []) (h : ∀ d ∈ ds, d < 2) (hv : GenValues.valB 2 ds 0 < 2 ^ 64) :
+    parseValue (String.ofList ('0' :: 'b' :: ds.map EnumText.digitChar)) = some (GenValues.valB 2 ds 0) :=
+  GenValues.binary_value ds hne h hv
+
+/-- **C18 (a definition the generator cannot express is an error).** A decimal value that does not fit the 64-bit constant makes
+    the conversion fail; it is never wrapped into another number. -/
+theorem decimal_enum_value_too_big (n : Nat) (hn : 2 ^ 64 ≤ n) :
+    parseValue (String.ofList (EnumText.natToDec n)) = none := GenValues.decimal_value_too_big n hn
+
+/-- **C18 (dialect version).** The number the generator model writes as the dialect's `Version` is the specification's: the
+    <version> of the last processed file that declares one (0 when none does or the text is not a number). -/
+theorem version_is_the_specs (order : List XFile) : versionNum (versionOf order) = Spec.Gen18.versionOf order :=
+  GenVersion.version_eq_spec order
+
+/-- **C18 (the dialect's own version wins).** When the dialect file declares a version — "0" included — that is the one written,
+    whatever the files it includes declare. -/
+theorem own_version_wins (root : XFile) (rest order : List XFile) (h : processed (root :: rest) = some order)
+    (hv : root.version ≠ "") : versionOf order = root.version :=
+  GenVersion.own_version_wins root rest order h hv
 
 end Mav.C18
